@@ -28,6 +28,7 @@ class Run:
         self.callbacks = []      # buffers handed to the callback, with the number of amessage calls before
         self.stores = {}         # ("first"|"second", i) -> token
         self.arrays = {}         # (decl id, index) -> token
+        self.bufs = {}           # buffer token -> content token (what was last built / copied into it)
         self.oob = []
         self.ev = None
 
@@ -218,8 +219,22 @@ class Run:
     def _call(self, n, ev):
         name = A.callee_name(n)
         args = A.kids(n)[1:]
-        if name in ("memset", "printf", "fprintf", "assert", "__assert_fail", "memcpy"):
+        if name in ("printf", "fprintf", "assert", "__assert_fail"):
             return 0
+        if name in ("memset", "memcpy", "memmove", "memcmp", "__builtin_memset", "__builtin_memcpy", "__builtin_memcmp"):
+            # buffers carry a content token: what the last rtosc_amessage built into them (statics start zeroed)
+            nm_ = name.replace("__builtin_", "")
+            v = [ev.ev(a) for a in args]
+            if not (isinstance(v[0], tuple) and v[0][0] in ("arr", "addr")):
+                return 0 if nm_ != "memcmp" else 1
+            if nm_ == "memset":
+                self.bufs[v[0]] = ("zero",) if v[1] == 0 else ("filled", v[1])
+                return 0
+            if nm_ in ("memcpy", "memmove"):
+                self.bufs[v[0]] = self.bufs.get(v[1], ("zero",)) if isinstance(v[1], tuple) else ("unknown", id(n))
+                return 0
+            a_, b_ = self.bufs.get(v[0], ("zero",)), (self.bufs.get(v[1], ("zero",)) if isinstance(v[1], tuple) else ("unknown", id(n)))
+            return 0 if a_ == b_ else 1
         if name == "make_pair" and len(args) == 2:
             return ("pair", ev.ev(args[0]), ev.ev(args[1]))
         if name == "rtosc_argument":
@@ -243,6 +258,8 @@ class Run:
             else:
                 raise FD.Unknown("argument array %r of rtosc_amessage" % (ap,), n)
             self.amessages.append({"buf": v[0], "size": v[1], "address": v[2], "types": v[3], "args": av})
+            if isinstance(v[0], tuple):
+                self.bufs[v[0]] = ("built", v[2], v[3], tuple(av))
             return 16
         if name in ("min", "max") and len(args) == 2:
             a, b = ev.ev(args[0]), ev.ev(args[1])
